@@ -231,10 +231,10 @@ func planClusterNonPushdown(opts *Opts, query *sql.Query) (core.FlatRowSource, e
 	sqlString := query.SQL
 	crosstabString := concatForCrosstab(sqlString)
 	lowerSQL := strings.ToLower(sqlString)
-	indexOfGroupBy := strings.Index(lowerSQL, "group by ")
-	indexOfHaving := strings.Index(lowerSQL, "having ")
-	indexOfOrderBy := strings.Index(lowerSQL, "order by ")
-	indexOfLimit := strings.Index(lowerSQL, "limit ")
+	indexOfGroupBy := indexOfClause(lowerSQL, "group by ")
+	indexOfHaving := indexOfClause(lowerSQL, "having ")
+	indexOfOrderBy := indexOfClause(lowerSQL, "order by ")
+	indexOfLimit := indexOfClause(lowerSQL, "limit ")
 	if indexOfGroupBy > 0 {
 		sqlString = sqlString[:indexOfGroupBy]
 	} else if indexOfHaving > 0 {
@@ -334,6 +334,39 @@ func planClusterNonPushdown(opts *Opts, query *sql.Query) (core.FlatRowSource, e
 	}
 
 	return addOrderLimitOffset(flat, query), nil
+}
+
+// indexOfClause returns the index of the first occurrence of the given clause
+// keyword in lowerSQL that belongs to the outermost query, i.e. that is neither
+// inside a quoted string nor inside parentheses (a sub-query). Returns -1 if
+// there is none.
+func indexOfClause(lowerSQL string, keyword string) int {
+	depth := 0
+	var quote byte
+	for i := 0; i < len(lowerSQL); i++ {
+		c := lowerSQL[i]
+		if quote != 0 {
+			if c == '\\' {
+				i++
+			} else if c == quote {
+				quote = 0
+			}
+			continue
+		}
+		switch c {
+		case '\'', '"', '`':
+			quote = c
+		case '(':
+			depth++
+		case ')':
+			depth--
+		default:
+			if depth == 0 && strings.HasPrefix(lowerSQL[i:], keyword) {
+				return i
+			}
+		}
+	}
+	return -1
 }
 
 func planAsIfLocal(opts *Opts, sqlString string) (core.FlatRowSource, error) {
